@@ -227,10 +227,17 @@ def _block(depth):
     return st.lists(st.one_of(leafb, st.tuples(st.just("e"), st.sampled_from(BLOCKS), st.deferred(lambda: _block(depth - 1))).map(list)), min_size=1, max_size=3)
 
 
+def _many_runs():
+    """Texts with many separate runs (5-40) of each kind: a cleaner that handles only the first few is exposed."""
+    run = st.sampled_from(["__", "___", "_____", "  ", "\t\t", " \n ", "\u00a0\u00a0", " \t ", "\r\n\r\n"])
+    word = st.sampled_from(["a", "b1", "U.S.", "x", "§", "é", "_", " ", "\n"])
+    return st.lists(st.tuples(word, run).map(lambda t: t[0] + t[1]), min_size=5, max_size=40).map("".join)
+
+
 def _text_case():
     steps = st.lists(st.sampled_from(TEXT_CLEANERS + TEXT_CLEANERS + ["<reverse>", "<upper>"]), max_size=4)
     steps = st.one_of(steps, steps, steps, st.tuples(steps, st.sampled_from(["bogus", "HTML", "whitespace", ""])).map(lambda x: x[0] + [x[1]]))
-    return st.builds(lambda t, s: {"kind": "text", "text": t, "steps": s}, st.lists(st.sampled_from(ALPH), max_size=30).map("".join), steps)
+    return st.builds(lambda t, s: {"kind": "text", "text": t, "steps": s}, st.one_of(st.lists(st.sampled_from(ALPH), max_size=30).map("".join), st.lists(st.sampled_from(ALPH), max_size=30).map("".join), _many_runs()), steps)
 
 
 def phases(tier):
